@@ -42,10 +42,10 @@ BUDGET = {
 _ALGOS = ["DYNAMOSA", "MOSA", "MIO", "WHOLE_SUITE", "RANDOM"]
 # the six general corpus modules plus the export-shape module (enums, __all__, custom exceptions, SystemExit,
 # Fraction/Decimal/date results, bytes, nested containers, values that flip back, dependency chains)
-_MODULES = ["tiny", "words", "shapes", "floats", "zoo", "plain", "gallery", "gallery", "gallery"]
+_MODULES = ["tiny", "words", "shapes", "floats", "zoo", "plain", "gallery", "gallery", "gallery", "wide"]
 
 
-_PHASE_MODULES = ["plain", "shapes", "zoo", "gallery", "words"]
+_PHASE_MODULES = ["plain", "shapes", "zoo", "gallery", "words", "wide"]
 
 
 def group_key(item):
